@@ -61,6 +61,30 @@ CHECKS = {
    technique="configuration x corpus sweep with real training; usability obligations checked on every returned model",
    text="Window and n-gram sizes {0,1,2,3} / {0,1,2,3,5} on all four axes (plus 8 and 255 one axis at a time), dictionaries with buckets {1,2} / {1,2,4,255}, rotating / all eight solvers, and 12 / 14 corpora (empty, single-character sentence, no word boundary, only word boundaries, untagged, tagged with 1-3 categories and absent tags, partially annotated, all-unknown, tag-dictionary-only tokens): Trainer::new / add_example / train must return Ok or Err and never unwind; every returned model must write, re-read to identical bytes, be accepted by Predictor::new with and without tag prediction, predict and fill_tags every text up to 3 characters without panicking, and contain only 16-bit weights.",
    note="A crash inside liblinear (C++) kills the engine process; the driver reports that as a violation with the crash log. Token::tag_candidates is not part of this property's observation (documented panic without stored scores)."),
+ "C12": dict(level="exploration", section="3/C12",
+   technique="corpus x configuration sweep with real training; black-box clauses on the mirror-decoded model + stored scores vs. the learner's recorded quantised classifier",
+   text="Corpora are sub-sampled pairs of two-token sentences over ten tagged-token variants (0-2 categories, absent tags, ambiguous tags in one or both categories) plus a tag-free filler sentence, with three tag-dictionary variants (none, dictionary-only token, token also in the corpus), plus partially annotated corpora; window/n-gram sizes with n <, =, > window; solvers {1,5} / all eight. After real training: exactly one tag model per required token, per category exactly the distinct observed tags without duplicates, bias and weight vectors sized to the trainable candidates; on every text up to 3 characters over {a,b,hiragana} with every forced {N,W,U} boundary vector, single-candidate categories yield that tag, ambiguous ones a member, unseen tokens nothing, and every stored candidate score equals recorded quantised bias + recorded weights of the documented tag features (class ids mapped to tag names by the trace).",
+   note="Tokens that occur in the corpus only untagged (alone or also in the tag dictionary) may or may not get a model: the statement does not decide it, either is accepted. Trusted: ref_tag_features in train.rs and the trace hook. Replays re-train (randomised by liblinear's rand() and hash order) up to 8 times."),
+ "C13": dict(level="exploration", section="3/C13",
+   technique="one worker binary per cargo feature subset, all run on the same exhaustive (model, text) enumeration and compared with the reference model line by line",
+   text="Quick: default, alloc-only and default-minus-each-optional-feature (6 builds); thorough: all 16 subsets of {cache-type-score, fix-weight-length, charwise-pma, tag-prediction} x {std, no std} (32 builds) plus portable-simd on the installed nightly (2 builds). Each worker links vaporetto built from /repo's working tree with exactly that feature set and processes sub-sampled C01 families (F1, F1b, F2, F4) and C06 tag-model families x all texts up to 4 characters over a 4-letter multi-byte alphabet; every output line (scores, boundaries, and tags where tag-prediction is compiled in) must equal the reference, hence all builds agree with each other.",
+   note="Workers are std binaries even when vaporetto is built without std. If a nightly-only feature set does not build in this sandbox it is listed in evidence as not checkable (both built here). Trusted: refmodel.rs."),
+ "C16": dict(level="exploration", section="3/C16", engine="vp-tantivy",
+   technique="exhaustive enumeration of all Unicode scalar values for the normaliser + bounded-exhaustive differential of the Tantivy token stream against the in-process core pipeline",
+   text="Normaliser: all 1 112 064 Unicode scalar values (one character out, equal to the golden table entry or unchanged, idempotent) and every string up to 3/4 characters over 8 table + 4 non-table characters (character-wise, length-preserving, idempotent). Token stream: 4 models (Tantivy test model, resources/model.bin, two generated) x texts up to 4/5 characters over {a,1,A,hiragana,kanji,-,CR,LF,ZWJ,pictograph,4-byte kanji,NUL} and the empty text x wsconst strings of length 0-2/0-3 over {D,R,H,T,K,O,G}: tokens must lie on character boundaries of the ORIGINAL text, tile it, carry the original substring and consecutive positions, and break exactly where normalise + predict + line-break filter + configured filters break.",
+   note="Golden table = copy of the 96 mappings from the pinned commit. For texts the core pipeline rejects (NUL) only the structural laws are required. Longest wsconst strings see a rotating 1/7 (1/5) of the texts."),
+ "C17": dict(level="fault_enumeration", section="3/C17",
+   technique="harness-side KyTea binary writer drives bounded-exhaustive conversion checks + every truncation point of every generated file and of resources/kytea-model.bin",
+   text="Generated KyTea files: 2 character maps (multi-byte, type letters, the 0x04 type byte) x window pairs x every set of <=2/<=3 n-grams per trie (prefix-related keys so states are both branch and inner, extra stored weights) and 1/2/8 dictionaries x buckets {1,2,4} x word sets x membership-mask assignments, 0-2 tag slots. The converted model, decoded by the mirror, must contain exactly the file's n-grams, type codes, bias, windows and per-word weights (summed over member dictionaries by bucket) and score every text up to 4 characters as those weights dictate. Every proper prefix of the generated files (quick: every 4th) and of resources/kytea-model.bin must yield Err, never a panic.",
+   note="TRUSTED: the field order of KyTea's binary format as read at the pinned commit (no second implementation exists in the sandbox); the arithmetic on top of it is what is checked. Files without a character or type trie are not generated (the converter rejects them by design)."),
+ "C18": dict(level="exploration", section="3/C18",
+   technique="re-execution of the other checks' exhaustive enumeration spaces in instrumented builds (debug assertions + std precondition checks; optional ASan), child processes",
+   text="The quick enumeration spaces of C01 (incl. large-window edges), C02, C03, C04, C06, C08 (history BFS + thread interleavings), C14, C15 (thorough: + C05) are re-executed by the same harness built in a `checked` profile (opt-level 1, debug-assertions on: every debug_assert! next to an unchecked access and, since Rust 1.78, the standard library's precondition checks for get_unchecked*/unwrap_unchecked/str slicing are armed). Only debug-assertion failures, precondition aborts (process death), sanitizer reports and invalid UTF-8 from the tokenized writer count; functional mismatches are left to the owning property.",
+   note="An out-of-range unchecked access that passes neither a debug_assert nor a std precondition check is visible only to a sanitizer build (thorough tier uses it when /verif/target/asan exists). Feature configurations other than the default are covered functionally by C13, not instrumented here."),
+ "C20": dict(level="exploration", section="3/C20",
+   technique="bounded-exhaustive differential of the real predict / evaluate binaries against the library pipeline executed in-process",
+   text="predict: every stream of 1-2 lines (thorough: plus all 3-line streams containing a rejected line) from a 10-line pool (empty, NUL, spaces, slashes, backslashes, half-width, multi-byte) with and without final newline x every subset of {--no-norm, --predict-tags, --scores, --tag-scores} x wsconst {none, D, G, D G} x {model without, model with tag models}: exit status, exactly one tokenised line per input line (empty for rejected input), boundaries/tags/escaping equal to the in-process pipeline applied to the original line, score and tag-score blocks after their line in one fixed layout. evaluate: every stream of 1-2/1-3 tokenized reference lines x {--no-norm} x {--predict-tags} x {char, word} x wsconst x models; printed counts and P/R/F1 equal an independent computation from the library's predictions with the same f64 operations.",
+   note="Layout taken from the default mode and the README. For a rejected line only the empty line is fixed (an empty block per requested kind is tolerated). --tag-scores without --predict-tags may be refused cleanly or ignored, but must not panic. Quick runs a rotating third / quarter of the products."),
 }
 
 PENDING_REASON = "check not built yet in this round (planned in DESIGN.md section 3); no claim is made"
@@ -85,17 +109,19 @@ def main():
     na = [{"property_id": p, "reason": PENDING_REASON} for p in ALL if p not in CHECKS]
     m = {
         "version": 1,
-        "setup_cmd": "cd /verif/harness && CARGO_NET_OFFLINE=true cargo build --release --offline -p vp-check -p vp-tantivy 2>&1 | tail -3",
+        "setup_cmd": "/verif/tools/setup.sh",
         "hooks": {
             "guard": "cargo feature `verif-hooks` on the vaporetto crate (off by default)",
             "enable": "the harness depends on /repo/vaporetto by path with features [train, kytea, verif-hooks]; cargo rebuilds from the working tree on every ./check",
             "baseline_off_cmd": "cd /repo && cargo test --workspace --no-fail-fast --offline",
-            "source_commits": ["0dc1169", "27f6ae4"],
+            "source_commits": ["0dc1169", "27f6ae4", "137675c"],
             "add_only": True,
         },
         "engines": [
             {"name": "vp-check", "path": "/verif/harness/vp-check", "serves_properties": [p for p in ALL if p in CHECKS and CHECKS[p].get("engine", "vp-check") == "vp-check"],
-             "kind_free_text": "Rust binary linking the real crates by path: bounded-exhaustive enumerators, explicit-state BFS over real Sentence objects, fault enumerators, baton scheduler; oracles are harness-side reference models"},
+             "kind_free_text": "Rust binary linking the real crates by path: bounded-exhaustive enumerators, explicit-state BFS over real Sentence objects, fault enumerators, baton scheduler, trainer sweeps, CLI differential; oracles are harness-side reference models"},
+            {"name": "vp-tantivy", "path": "/verif/harness/vp-tantivy", "serves_properties": ["C16"], "kind_free_text": "separate binary (pulls in tantivy) for the normaliser and token-stream enumeration"},
+            {"name": "vp-flags", "path": "/verif/harness/vp-flags", "serves_properties": ["C13"], "kind_free_text": "worker crate built once per cargo feature subset of vaporetto (own target directory each)"},
         ],
         "checks": checks,
         "not_applicable": na,
